@@ -420,5 +420,39 @@ def run(F, rep, tier):
         else:
             c0 = (badc or [x[0] for x in badt])[0]
             rep.viol('R16.8', rp + '|format', 'NNum::repr formats a component with %s: the text of a float then uses a notation (exponent form, padding) that does not evaluate back to the number - eval(repr(1e-7)) fails' % (c0.target.rsplit('::', 1)[-1] if badc else 'format flags %s' % (badt[0][1],)), c0.loc())
+    # ---------------- R16.10
+    rep.rule('R16.10', 'repr of a string reads back: in write_string every path taken when flags.repr is set formats the text with the '
+             'Debug formatter (which escapes quotes, backslashes and control characters), and the Display formatter is used only when '
+             'flags.repr is clear - a repr path that writes the raw text between quotes leaves backslashes unescaped')
+    ws = 'core::write_string'
+    if not F.has_fn(ws):
+        rep.error('R16.10', ws + ' missing')
+    else:
+        wb = F.body(ws)
+        starts = [s_[1][0] for i in wb.reach for s_ in wb.stmts(i)
+                  if s_[0] == 'a' and len(s_[1]) == 1 and s_[2][0] == 'use' and s_[2][1][0] in ('c', 'm')
+                  and re.match(r'f\d+:repr$', str(s_[2][1][1][-1]))]
+        sws = [sw for st_ in starts for sw in bool_switches(wb, st_)]
+        dbg = {c.bb for c in wb.calls if c.target.endswith('::new_debug') or c.target.endswith('::new_debug_noop')}
+        dsp = {c.bb for c in wb.calls if 'fmt::rt::Argument' in c.target and not c.target.rsplit('::', 1)[-1].startswith('new_debug')}
+        # writes made by helpers / closures of write_string count as non-Debug writes unless they are Debug constructors
+        other = [c for fb in family_bodies(F, ws) if fb is not wb and fb.path != wb.path for c in fb.calls if 'fmt::rt::Argument' in c.target]
+        rets = {i for i in wb.reach if wb.term(i)[0] == 'ret'}
+        if not sws:
+            rep.error('R16.10', 'write_string does not branch on flags.repr')
+        elif other:
+            rep.error('R16.10', 'write_string formats through a helper (%s): the rule reads one body' % other[0].target)
+        else:
+            bad = None
+            for (bb, tt, ff) in sws:
+                on_true = wb.reachable_from(tt, avoid={bb})
+                if dsp & on_true:
+                    bad = ('display-on-repr', 'a non-Debug format argument is built on a path where flags.repr is set', sorted(dsp & on_true)[0])
+                elif not wb.every_path_passes(tt, rets, dbg):
+                    bad = ('repr-without-debug', 'a path with flags.repr set returns without formatting the text with {:?}', tt)
+            if bad:
+                rep.viol('R16.10', '%s|%s' % (ws, bad[0]), bad[1] + ': repr("a\\\\tb") then does not evaluate back to the string', wb.loc(bad[2]))
+            else:
+                rep.ok('R16.10', ws, '%d switch(es) on flags.repr; Debug on every repr path, Display only off it' % len(sws))
     rep.undecided += ['int(str(n)) == n and the other round trips as equations', 'base64 / gzip / JSON codecs themselves (dependencies)']
     return META
